@@ -151,3 +151,7 @@ def run(ctx):
     rep.check(ok, 'R2', 'set_sampled-sets-the-sample', where(ssb), 'set_value(sample(rng, step_size))',
               'set_sampled does not set exactly sample(rng, step_size) with the step it was given')
     rep.note('R3 (one parameter per proposal) is decided by C06.R1; the clamp can only shorten a move (C08.R2)')
+    # R3: a rejected move must be undone EXACTLY: an undo that restores a stale value leaves the state one (or two) steps away
+    # from the last accepted one, and the next proposal is then larger than one step from it (C06.R3 obligations, imported)
+    from .common import import_obligations
+    import_obligations(ctx, 'C06', 'R3', only_rules={'R3'}, floor=3)
